@@ -689,6 +689,8 @@ def run(ctx):
     r6(ctx)
     r7(ctx)
     r8(ctx)
+    from . import C05
+    C05.r11(ctx, R="C01-R9")   # destructors run by crash / bounce must not see the wall clock
 
 
 TABLE_ACCESSORS = GLOBALS
